@@ -594,3 +594,23 @@ func shortMsgs(ms [][]byte) string {
 	}
 	return "[" + strings.Join(parts, " ") + "]"
 }
+
+// AnyDecompress is the reference decompressor for every algorithm the
+// harness registers (gzip and the magic-byte XOR codecs).
+func AnyDecompress(alg string, p []byte) ([]byte, error) {
+	switch alg {
+	case "", "identity":
+		return p, nil
+	case "gzip":
+		return Gunzip(p)
+	case "alg1":
+		return XorDecode(0xA1, p)
+	case "alg2":
+		return XorDecode(0xA2, p)
+	case "alg3":
+		return XorDecode(0xA3, p)
+	case "rev1":
+		return XorDecode(0xA1, p)
+	}
+	return nil, fmt.Errorf("reference has no algorithm %q", alg)
+}
